@@ -1,3 +1,250 @@
 import Gengo.Model.Exec
+/-! # C04 – targets and generators are driven exactly by the documented protocol -/
 namespace Gengo.C04
+open Gengo Gengo.Exec
+
+/-- the documented call sequence for one generator that runs through: its filter is asked about every
+type the target accepted (in canonical order), then Namers (seeing the base systems), PackageVars,
+PackageConsts, Init, one GenerateType per type that passed both filters (in canonical order),
+Finalize, Imports – each of these seeing the base systems extended by this generator's own only. -/
+def genTrace (c : Ctx) (po : List Nat) (g : Gen) : List Ev :=
+  evStart c po g ++ evVarsConsts c po g ++
+  [Ev.hook .init g.name (genNamers c g) (genOrder po g)] ++
+  (genOrder po g).map (fun t => Ev.genType g.name t (genNamers c g)) ++
+  [Ev.hook .finalize g.name (genNamers c g) (genOrder po g), Ev.hook .imports g.name (genNamers c g) (genOrder po g)]
+
+theorem bodyTypes_ok (g : Gen) (ns : List Str) (order : List Nat) (h : (bodyTypes g ns order).2.2 = false) :
+    (bodyTypes g ns order).1 = order.map (fun t => Ev.genType g.name t ns) := by
+  induction order with
+  | nil => rfl
+  | cons t ts ih =>
+    by_cases ht : g.typeErr.contains t = true
+    · simp only [bodyTypes, ht, if_true] at h; cases h
+    · have ht' : g.typeErr.contains t = false := by simpa using ht
+      simp only [bodyTypes, ht', Bool.false_eq_true, if_false] at h ⊢
+      simp [ih h]
+
+theorem executeBody_ok (g : Gen) (ns : List Str) (order : List Nat) (h : (executeBody g ns order).2.2 = false) :
+    (executeBody g ns order).1 =
+      [Ev.hook .init g.name ns order] ++ order.map (fun t => Ev.genType g.name t ns) ++ [Ev.hook .finalize g.name ns order] := by
+  unfold executeBody at h ⊢
+  by_cases hi : g.initErr = true
+  · simp [hi] at h
+  · simp only [hi, if_false] at h ⊢
+    by_cases hb : (bodyTypes g ns order).2.2 = true
+    · simp [hb] at h
+    · have hb' : (bodyTypes g ns order).2.2 = false := by simpa using hb
+      simp only [hb', Bool.false_eq_true, if_false]
+      rw [bodyTypes_ok g ns order hb']
+      simp
+
+/-- **hooks_in_documented_order**: whenever the generator loop of a target runs through, the trace of
+calls is, generator by generator in list order, exactly the documented sequence – nothing skipped,
+nothing repeated, nothing interleaved. -/
+theorem hooks_in_documented_order (c : Ctx) (tgt : Target) (po : List Nat) (gens : List Gen)
+    (files files' : List File) (evs : List Ev) (h : runGens c tgt po gens files = (evs, .inr files')) :
+    evs = (gens.map (genTrace c po)).flatten := by
+  induction gens generalizing files evs with
+  | nil => simp only [runGens, Prod.mk.injEq] at h; simp [h.1.symm]
+  | cons g gs ih =>
+    simp only [runGens] at h
+    split at h
+    · simp at h
+    · split at h
+      · simp at h
+      · rename_i hb
+        have hb' : (executeBody g (genNamers c g) (genOrder po g)).2.2 = false := by simpa using hb
+        simp only [Prod.mk.injEq] at h
+        obtain ⟨h1, h2⟩ := h
+        have hih := ih _ _ (Prod.ext rfl h2)
+        subst h1
+        simp only [List.map_cons, List.flatten_cons, ← hih, genTrace, executeBody_ok _ _ _ hb', List.append_assoc,
+          List.cons_append, List.nil_append]
+
+/-- **generateType_exactly_filtered**: the types a generator is asked to generate are exactly those
+accepted by the target's filter and then by its own, in canonical order (read off the trace) -/
+theorem generateType_exactly_filtered (c : Ctx) (po : List Nat) (g : Gen) :
+    (genTrace c po g).filterMap (fun e => match e with | .genType _ t _ => some t | _ => none)
+      = po.filter (fun t => g.accept.contains t) := by
+  simp only [genTrace, evStart, evVarsConsts, List.filterMap_append, List.filterMap_map, List.filterMap_cons,
+    List.filterMap_nil, List.append_nil, List.nil_append]
+  have h1 : List.filterMap ((fun e => match e with | Ev.genType _ t _ => some t | _ => none) ∘ fun t => Ev.gFilter g.name t) po = [] := by
+    induction po <;> simp_all
+  have h2 : List.filterMap ((fun e => match e with | Ev.genType _ t _ => some t | _ => none) ∘ fun t => Ev.genType g.name t (genNamers c g)) (genOrder po g) = genOrder po g := by
+    induction genOrder po g <;> simp_all
+  rw [h1, h2]; rfl
+
+/-- the filter itself is asked about exactly the types the target accepted, in canonical order -/
+theorem filter_asked_about_target_types (c : Ctx) (po : List Nat) (g : Gen) :
+    (genTrace c po g).filterMap (fun e => match e with | .gFilter _ t => some t | _ => none) = po := by
+  simp only [genTrace, evStart, evVarsConsts, List.filterMap_append, List.filterMap_map, List.filterMap_cons,
+    List.filterMap_nil, List.append_nil]
+  have h1 : List.filterMap ((fun e => match e with | Ev.gFilter _ t => some t | _ => none) ∘ fun t => Ev.gFilter g.name t) po = po := by
+    induction po <;> simp_all
+  have h2 : List.filterMap ((fun e => match e with | Ev.gFilter _ t => some t | _ => none) ∘ fun t => Ev.genType g.name t (genNamers c g)) (genOrder po g) = [] := by
+    induction genOrder po g <;> simp_all
+  rw [h1, h2]; simp
+
+/-- whole target: the trace starts with `Generators` seeing the target-filtered order, followed by the
+documented per-generator sequences over that order -/
+theorem target_trace (format : Str → Option Str) (c : Ctx) (tgt : Target) (d : Disk)
+    (hmk : (c.v2 && (if c.verify then some d else d.mkdirAll tgt.dir).isNone) = false)
+    (files : List File) (evs : List Ev)
+    (h : runGens c tgt (c.order.filter (fun t => tgt.accept.contains t)) tgt.gens [] = (evs, .inr files)) :
+    (executeTarget format c tgt d).1 =
+      Ev.generators (c.order.filter (fun t => tgt.accept.contains t)) ::
+        (tgt.gens.map (genTrace c (c.order.filter (fun t => tgt.accept.contains t)))).flatten := by
+  have ht := hooks_in_documented_order c tgt _ tgt.gens [] files evs h
+  unfold executeTarget
+  simp only [hmk, Bool.false_eq_true, if_false, h]
+  split <;> simp [ht]
+
+/-- **namers_private_to_generator**: what a generator's hooks see is the base set of naming systems
+extended by *its own* systems only – it is a function of the base and of that generator alone, so no
+other generator's systems are visible and the base context is not changed. -/
+theorem namers_private_to_generator (c : Ctx) (g : Gen) (n : Str) :
+    n ∈ addNamers c.namers g.namers ↔ n ∈ c.namers ∨ (∃ l, g.namers = some l ∧ n ∈ l) := by
+  unfold addNamers
+  cases g.namers with
+  | none => simp
+  | some l =>
+    simp only [Option.some.injEq, exists_eq_left']
+    suffices ∀ base : List Str, n ∈ l.foldl (fun acc n => if acc.contains n then acc else acc ++ [n]) base ↔ n ∈ base ∨ n ∈ l from this _
+    induction l with
+    | nil => simp
+    | cons x xs ih =>
+      intro base
+      simp only [List.foldl_cons, ih, List.mem_cons]
+      by_cases hx : base.contains x = true
+      · have hx' : x ∈ base := by simpa using hx
+        rw [if_pos hx]
+        constructor
+        · rintro (h | h)
+          · exact Or.inl h
+          · exact Or.inr (Or.inr h)
+        · rintro (h | h | h)
+          · exact Or.inl h
+          · subst h; exact Or.inl hx'
+          · exact Or.inr h
+      · rw [if_neg hx]
+        simp only [List.mem_append, List.mem_singleton]
+        constructor
+        · rintro ((h | h) | h)
+          · exact Or.inl h
+          · exact Or.inr (Or.inl h)
+          · exact Or.inr (Or.inr h)
+        · rintro (h | h | h)
+          · exact Or.inl (Or.inl h)
+          · exact Or.inl (Or.inr h)
+          · exact Or.inr h
+
+/-! ### file types -/
+
+/-- **empty_filetype_is_error** -/
+theorem empty_filetype_is_error (c : Ctx) (tgt : Target) (po : List Nat) (g : Gen) (gs : List Gen)
+    (files : List File) (h : g.fileType.isEmpty = true) :
+    (runGens c tgt po (g :: gs) files).2 = .inl .errFileType := by
+  simp [runGens, fileTypeError, h]
+
+/-- **conflicting_filetype_is_error**: a generator naming a file that was started with another type -/
+theorem conflicting_filetype_is_error (c : Ctx) (tgt : Target) (po : List Nat) (g : Gen) (gs : List Gen)
+    (files : List File) (f : File) (hf : findFile files g.filename = some f) (hne : f.fileType ≠ g.fileType) :
+    (runGens c tgt po (g :: gs) files).2 = .inl .errFileType := by
+  have : fileTypeError files g = true := by simp [fileTypeError, hf, hne]
+  simp [runGens, this]
+
+/-- **unknown_filetype_is_error**: if the generators run through but some file's type is not
+registered in the context, the target fails -/
+theorem unknown_filetype_is_error (format : Str → Option Str) (c : Ctx) (tgt : Target) (d : Disk)
+    (hmk : (c.v2 && (if c.verify then some d else d.mkdirAll tgt.dir).isNone) = false)
+    (files : List File) (evs : List Ev)
+    (h : runGens c tgt (c.order.filter (fun t => tgt.accept.contains t)) tgt.gens [] = (evs, .inr files))
+    (hu : files.any (fun f => !c.fileTypes.contains f.fileType) = true) :
+    (executeTarget format c tgt d).2.1 = .errUnknownType := by
+  unfold executeTarget
+  simp only [hmk, Bool.false_eq_true, if_false, h, hu, if_true]
+
+/-! ### one file per name, contributions in generator order -/
+
+theorem findFile_name (files : List File) (n : Str) (f : File) (h : findFile files n = some f) : f.name = n := by
+  unfold findFile at h
+  have := List.find?_some h
+  simpa using this
+
+theorem findFile_putFile (files : List File) (f : File) (n : Str) :
+    findFile (putFile files f) n = if f.name = n then some f else findFile files n := by
+  induction files with
+  | nil => simp [putFile, findFile, List.find?]
+  | cons x xs ih =>
+    simp only [putFile]
+    by_cases hx : x.name = f.name
+    · simp only [hx, if_true]
+      by_cases hn : f.name = n
+      · simp [findFile, List.find?, hn]
+      · have : ¬ x.name = n := by rw [hx]; exact hn
+        simp [findFile, List.find?, hn, this]
+    · simp only [hx, if_false]
+      by_cases hxn : x.name = n
+      · have : ¬ f.name = n := by intro e; exact hx (hxn.trans e.symm)
+        simp [findFile, List.find?, hxn, this]
+      · have := ih
+        simp only [findFile] at this ⊢
+        simp [List.find?, hxn, this]
+
+def bodyIn (files : List File) (n : Str) : Str := ((findFile files n).map (·.body)).getD []
+
+theorem startFile_name (tgt : Target) (files : List File) (g : Gen) : (startFile tgt files g).name = g.filename := by
+  unfold startFile
+  cases h : findFile files g.filename with
+  | none => rfl
+  | some f => simpa using findFile_name files g.filename f h
+
+theorem startFile_body (tgt : Target) (files : List File) (g : Gen) :
+    (startFile tgt files g).body = bodyIn files g.filename := by
+  unfold startFile bodyIn
+  cases findFile files g.filename <;> rfl
+
+theorem contribute_name (f : File) (g : Gen) (b : Str) : (contribute f g b).name = f.name := rfl
+theorem contribute_body (f : File) (g : Gen) (b : Str) : (contribute f g b).body = f.body ++ b := rfl
+
+/-- **same_file_accumulates_in_generator_order**: after a generator loop that runs through, the body of
+every file is what it was before followed by the bodies of exactly the generators naming that file,
+in generator order -/
+theorem same_file_accumulates (c : Ctx) (tgt : Target) (po : List Nat) (gens : List Gen)
+    (files files' : List File) (evs : List Ev) (h : runGens c tgt po gens files = (evs, .inr files')) (n : Str) :
+    bodyIn files' n = bodyIn files n ++
+      ((gens.filter (fun g => g.filename = n)).map
+        (fun g => (executeBody g (genNamers c g) (genOrder po g)).2.1)).flatten := by
+  induction gens generalizing files evs with
+  | nil => simp only [runGens, Prod.mk.injEq, Sum.inr.injEq] at h; simp [h.2]
+  | cons g gs ih =>
+    simp only [runGens] at h
+    split at h
+    · simp at h
+    · split at h
+      · simp at h
+      · simp only [Prod.mk.injEq] at h
+        obtain ⟨_, h2⟩ := h
+        rw [ih _ _ (Prod.ext rfl h2)]
+        have hb : bodyIn (putFile files (contribute (startFile tgt files g) g (executeBody g (genNamers c g) (genOrder po g)).2.1)) n
+            = if g.filename = n then bodyIn files n ++ (executeBody g (genNamers c g) (genOrder po g)).2.1 else bodyIn files n := by
+          unfold bodyIn
+          rw [findFile_putFile, contribute_name, startFile_name]
+          by_cases hg : g.filename = n
+          · rw [if_pos hg, if_pos hg]
+            simp only [Option.map_some, Option.getD_some]
+            rw [contribute_body, startFile_body, hg]; rfl
+          · rw [if_neg hg, if_neg hg]
+        rw [hb]
+        by_cases hg : g.filename = n
+        · rw [if_pos hg]
+          simp only [List.filter_cons, hg, decide_true, if_true, List.map_cons, List.flatten_cons, List.append_assoc]
+        · rw [if_neg hg]
+          simp only [List.filter_cons, hg, decide_false, Bool.false_eq_true, if_false]
+
+/-! non-vacuity -/
+def g1 : Gen := ⟨"g1".toList, [1, 3], some ["mine".toList], "go".toList, "a.go".toList, [], [], [], false, false, []⟩
+example : (runGens ⟨[1, 2, 3], ["raw".toList], ["go".toList], false, false⟩ ⟨"p".toList, "d".toList, [1, 2, 3], [], [g1]⟩
+    [1, 2, 3] [g1] []).2.isRight = true := by decide
+
 end Gengo.C04
